@@ -75,7 +75,7 @@ func runR13_10(c *Ctx, r *R) {
 			rs := callee.Signature.Results()
 			for i := 1; i < rs.Len(); i++ {
 				if isErrorType(rs.At(i).Type()) {
-					if bt, ok := rs.At(i-1).Type().Underlying().(*types.Basic); ok && bt.Kind() == types.Int {
+					if bt, ok := rs.At(i - 1).Type().Underlying().(*types.Basic); ok && bt.Kind() == types.Int {
 						si = i - 1
 					}
 				}
